@@ -34,6 +34,7 @@ var swaps = map[string]struct{ path, name string }{
 	"sync": {"verif/h/rt/vsync", "sync"},
 	"time": {"verif/h/rt/vtime", "time"},
 	"os":   {"verif/h/rt/vos", "os"},
+	"context": {"verif/h/rt/vcontext", "context"},
 	"github.com/syndtr/goleveldb/leveldb": {"verif/h/rt/vleveldb", "leveldb"},
 }
 
